@@ -49,6 +49,8 @@ def main():
         code = 2
     elif beh == 'empty':
         code = 1
+    elif beh == 'empty0':
+        code = 0   # success and not a byte of output (for shellcheck: not JSON)
     elif beh == 'garbage':
         out = 'this is { not json\n'
         code = b.get('code', 0)
